@@ -198,6 +198,10 @@ class Run:
                 res["samples"].append(args)
                 # 1. unit replay in a plain interpreter
                 u = self._call(path, "body", args)
+                if str(u.get("exception") or "").startswith("Unsupported"):
+                    res["status"] = "inconclusive"
+                    res["reason"] = "a stand-in does not model an operation the code under test uses: " + u["exception"][:200]
+                    break
                 reproduced = (u.get("exception") is not None) or (u.get("truthy") is False)
                 if "returned" not in u and "exception" not in u:
                     reproduced = False
